@@ -95,6 +95,90 @@ func c11sched(c *core.Ctx) {
 			vsched.Logf("ok")
 		}})
 	}
+	// a refused CONNECT next to an accepted one, at the same time: the refused one
+	// (unsupported protocol level / client id with a control character) carries a will
+	// and another client identifier; nothing of it may end up in the accepted connection
+	for _, v := range []struct {
+		name string
+		mk   func(p *refcodec.Packet)
+	}{
+		{"unsupported protocol level", func(p *refcodec.Packet) { p.Level = 5 }},
+		{"truncated behind the will topic", nil},
+	} {
+		v := v
+		scs = append(scs, scen{"accepted CONNECT || refused CONNECT (" + v.name + ")", func() {
+			t := newTD()
+			w := t.connect("W", 0, 65535, false)
+			t.subscribe("W", "#", 1)
+			a, err := t.w.Dial("A")
+			if err != nil {
+				vsched.Failf("harness: dial: %v", err)
+				return
+			}
+			b, err := t.w.Dial("B")
+			if err != nil || vsched.Failed() {
+				return
+			}
+			w.rc.Take()
+			vsched.Mark()
+			evil := ConnectPacket(ConnectOpts{ClientID: "evil-client", Clean: false, KeepAlive: 65535, Will: &Will{"pwn/will", "gotcha", 0, false}})
+			wire := refcodec.Encode(evil)
+			if v.mk != nil {
+				v.mk(evil)
+				wire = refcodec.Encode(evil)
+			} else {
+				wire = wire[:len(wire)-8] // ends inside the will message: never a complete CONNECT
+			}
+			a.Conn.Write(refcodec.Encode(ConnectPacket(ConnectOpts{ClientID: "good-client", Clean: false, KeepAlive: 65535})))
+			b.Conn.Write(wire)
+			if v.mk == nil {
+				b.Cut()
+			}
+			t.w.Settle()
+			if ga := a.Take(); len(ga) != 1 || ga[0].Type != refcodec.CONNACK || ga[0].ReturnCode != 0 || ga[0].SessionPresent {
+				vsched.Failf("the well-formed CONNECT was answered by %s", Describe(ga))
+				return
+			}
+			for _, g := range b.Take() {
+				if g.Type != refcodec.CONNACK || g.ReturnCode == 0 {
+					vsched.Failf("the refused CONNECT was answered by %s", g)
+					return
+				}
+			}
+			// the accepted connection ends abnormally: it had no will
+			a.Cut()
+			t.w.Settle()
+			if got := w.rc.Take(); len(got) != 0 {
+				vsched.Failf("the accepted connection (no will) was cut and the witness received %s: the will of the refused CONNECT", Describe(got))
+				return
+			}
+			// its session is stored under its own identifier, none under the refused one
+			for _, q := range []struct {
+				cid  string
+				want bool
+			}{{"good-client", true}, {"evil-client", false}} {
+				rc, err := t.w.Dial("R-" + q.cid)
+				if err != nil {
+					return
+				}
+				rc.Send(ConnectPacket(ConnectOpts{ClientID: q.cid, Clean: false, KeepAlive: 65535}))
+				t.w.Settle()
+				got := rc.Take()
+				if len(got) != 1 || got[0].Type != refcodec.CONNACK || got[0].ReturnCode != 0 {
+					vsched.Failf("a later CONNECT of %q was answered by %s", q.cid, Describe(got))
+					return
+				}
+				if got[0].SessionPresent != q.want {
+					vsched.Failf("a later CleanSession=0 CONNECT of %q got SessionPresent=%v, expected %v (accepted: good-client; refused: evil-client)", q.cid, got[0].SessionPresent, q.want)
+					return
+				}
+			}
+			if t.badStream() {
+				return
+			}
+			vsched.Logf("ok")
+		}})
+	}
 	for _, sc := range scs {
 		if c.Expired() || c.HasViolation() {
 			return
